@@ -4,9 +4,13 @@
 (* HDF5 file (C08), as a state machine over the abstract file              *)
 (*       file : dataset path -> [shape, cells]   (cells in row-major order)*)
 (* Actions = the public entry points with the semantics of the statement:  *)
-(*   Create(p, shape)       no-op if p exists with the same shape, refused *)
+(*   Create(p, shape, fill) no-op if p exists with the same shape, refused *)
 (*                          (error, nothing changes) if the shape differs; *)
-(*                          a new dataset is zero filled                   *)
+(*                          a new dataset holds zeros -- or the fill value:*)
+(*                          the implementation ignores its fill argument   *)
+(*                          and the statement does not say which, so cells *)
+(*                          of a dataset created with fill f # 0 are the   *)
+(*                          value -f, read by the engine as "0 or f"       *)
 (*   Write(p, v)            creates p if absent (shape of v); dataset :=   *)
 (*                          row-major values of the view, whatever its     *)
 (*                          in-memory layout; refused if the shape differs *)
@@ -26,6 +30,8 @@ CONSTANTS Paths,       \* dataset paths, e.g. {"/a", "/g/b"}
           Shapes,      \* dataset shapes
           Layouts,     \* in-memory layouts of source views: subset of {"contig","stepped","offset","tail"}
           MaxOps, MaxStep,
+          Fills,       \* fill values offered to Create, e.g. {0, 7}
+          ValKinds,    \* what a written view holds: subset of {"fresh", "zero"} ("zero": an all-zero array)
           Emit
 
 VARIABLES file, fresh, hist, nops, done
@@ -79,18 +85,18 @@ Mutable == nops < MaxOps - 1 /\ ~LastWasSelLoad
 
 Create ==
     /\ ~done /\ Mutable
-    /\ \E p \in Paths, s \in Shapes :
+    /\ \E p \in Paths, s \in Shapes, f \in Fills :
         IF p \in DOMAIN file
         THEN /\ file' = file
-             /\ Log([op |-> "create", p |-> p, shape |-> s, err |-> (file[p].shape # s)])
-        ELSE /\ file' = Put(p, [shape |-> s, cells |-> Zeros(Prod(s))])
-             /\ Log([op |-> "create", p |-> p, shape |-> s, err |-> FALSE])
+             /\ Log([op |-> "create", p |-> p, shape |-> s, fill |-> f, err |-> (file[p].shape # s)])
+        ELSE /\ file' = Put(p, [shape |-> s, cells |-> [k \in 1..Prod(s) |-> 0 - f]])
+             /\ Log([op |-> "create", p |-> p, shape |-> s, fill |-> f, err |-> FALSE])
     /\ UNCHANGED <<fresh, done>>
 
 Write ==
     /\ ~done /\ Mutable
-    /\ \E p \in Paths, s \in Shapes, lay \in Layouts :
-        LET vals == FreshVals(Prod(s))
+    /\ \E p \in Paths, s \in Shapes, lay \in Layouts, vk \in ValKinds :
+        LET vals == IF vk = "zero" THEN Zeros(Prod(s)) ELSE FreshVals(Prod(s))
             bad == p \in DOMAIN file /\ file[p].shape # s
         IN /\ file' = IF bad THEN file ELSE Put(p, [shape |-> s, cells |-> vals])
            /\ Log([op |-> "write", p |-> p, shape |-> s, layout |-> lay, vals |-> vals, err |-> bad])
@@ -102,11 +108,11 @@ Blocks(shape) == {b \in SeqProd([d \in 1..Len(shape) |-> (0..(shape[d] - 1)) \X 
                     \A d \in 1..Len(shape) : b[d][1] + b[d][2] <= shape[d]}
 WriteSlice ==
     /\ ~done /\ Mutable
-    /\ \E p \in DOMAIN file, lay \in Layouts :
+    /\ \E p \in DOMAIN file, lay \in Layouts, vk \in ValKinds :
        \E b \in Blocks(file[p].shape) :
         LET loc == [d \in 1..Len(b) |-> b[d][1]]
             bs == [d \in 1..Len(b) |-> b[d][2]]
-            vals == FreshVals(Prod(bs))
+            vals == IF vk = "zero" THEN Zeros(Prod(bs)) ELSE FreshVals(Prod(bs))
             cells == [k \in 1..Len(file[p].cells) |->
                         LET i == Unrank(k - 1, file[p].shape) IN
                         IF \A d \in 1..Len(bs) : i[d] >= loc[d] /\ i[d] < loc[d] + bs[d]
